@@ -39,6 +39,14 @@ def run_suite(suite, pid, rng, tier, findings):
         terms.append(suite.to_coq(case, out))
     t_impl = time.time() - t0
     t1 = time.time()
+    # suites may cap how many cases go through the (slower) in-kernel comparison; the property oracle
+    # below still sees every case
+    cap = getattr(suite, "coq_cap", {}).get(tier)
+    coq_idx = list(range(len(terms)))
+    if cap and len(terms) > cap:
+        step = len(terms) / cap
+        coq_idx = sorted({int(i * step) for i in range(cap)})
+        terms = [terms[i] for i in coq_idx]
     skipped = []
     if getattr(suite, "classify", False):
         bad, skipped = C.run_cases_classify(suite.imports, suite.case_type, suite.chk, terms,
@@ -46,12 +54,14 @@ def run_suite(suite, pid, rng, tier, findings):
     else:
         bad = C.run_cases(suite.imports, suite.case_type, suite.chk, terms, shard=getattr(suite, "shard", 300),
                           tag=suite.name)
+    bad = [coq_idx[i] for i in bad]
+    skipped = [coq_idx[i] for i in skipped]
     t_coq = time.time() - t1
     res = {
         "suite": suite.name, "evaluations": len(cases),
         "distinct_nontrivial": sum(1 for c, o in zip(cases, outs) if suite.nontrivial(c, o)),
         "disagreements": [], "violations": [], "known": [], "impl_s": round(t_impl, 2), "coq_s": round(t_coq, 2),
-        "samples": [], "stats": {}, "skipped": len(skipped),
+        "samples": [], "stats": {}, "skipped": len(skipped), "compared_with_model": len(coq_idx),
     }
     if hasattr(suite, "stats"):
         res["stats"] = suite.stats(cases, outs)
@@ -112,6 +122,7 @@ def main():
 
 
 def check(pid, tier, seed, t0):
+    C.setup_impl_path()
     import props
     if pid not in props.PROPS:
         raise C.Broken(f"unknown property {pid}")
@@ -130,7 +141,6 @@ def check(pid, tier, seed, t0):
     assumptions = C.print_assumptions(pid, thms)
     axioms = sorted({a for v in assumptions.values() for a in v})
 
-    C.setup_impl_path()
     rng = random.Random(f"{seed}-{pid}-{tier}")
     results = []
     for suite in spec["suites"](tier):
@@ -191,7 +201,7 @@ def check(pid, tier, seed, t0):
             "evaluations": sum(r["evaluations"] for r in results) + extra_info.get("evaluations", 0),
             "distinct_nontrivial": sum(r["distinct_nontrivial"] for r in results) + extra_info.get("distinct_nontrivial", 0),
             "rule": spec.get("rule", "cases are de-duplicated by their JSON form; non-trivial per suite"),
-            "suites": [{k: r[k] for k in ("suite", "evaluations", "distinct_nontrivial", "impl_s", "coq_s", "stats", "skipped")}
+            "suites": [{k: r[k] for k in ("suite", "evaluations", "distinct_nontrivial", "impl_s", "coq_s", "stats", "skipped", "compared_with_model")}
                        | {"disagreements": len(r["disagreements"]), "oracle_violations": len(r["violations"]),
                           "known_findings": len(r["known"])} for r in results],
             "samples": [s for r in results for s in r["samples"]][:6] + extra_info.get("samples", []),
